@@ -54,7 +54,7 @@ def make_case(rng, i, ctx):
     priors = None
     if pri_form == 'dict':
         k = int(rng.integers(0, n))
-        priors = {k: '%.2f(%d)' % (ptrue[k] * 1.05, int(rng.integers(20, 60)))}
+        priors = {k: ['%.2f(%d)', '%.1f0(%d)'][int(rng.integers(0, 2))] % (ptrue[k] * 1.05, int(rng.integers(20, 60)))}
         kw['priors'] = priors
     L = None
     if corr_mode != 'none':
@@ -78,7 +78,7 @@ def make_case(rng, i, ctx):
     if priors is not None:
         for k, po in res.priors.items():
             po.gamma_method()
-            pri.append({'pos': int(k) + 1, 'o': project_obs(po), 'v': rat(float(po.value)), 'dv': rat(float(po.dvalue))})
+            pri.append({'pos': int(k) + 1, 'o': project_obs(po), 'v': rat(float(po.value)), 'dv': rat(float(po.dvalue)), 's': priors[k]})
     rec = fitgen.fit_result_record(res, L is not None)
     rec['ncov'] = int(min(o.N for o in ys))
     cid = 'nl-%04d-%s-%s-%s-%s%s' % (i, name, kind, pri_form, corr_mode, '-num' if numgrad else '')
